@@ -56,7 +56,7 @@ func rejectableBatch(h *hreq) bool {
 // and not of the refused kinds — exactly the predicate of C03_inexpressible_rejected_partial) are "gap" whatever
 // happened. The specification's judgement (Lean: FrameWrite.judge on the outcome) has to agree.
 func soutVerdict(h *hreq, sent bool) string {
-	if !expressible(h) && !rejectableBatch(h) {
+	if !expressible(h) && !rejectable(h) {
 		return "gap"
 	}
 	if sent {
@@ -168,7 +168,7 @@ func execSout(w []string) string {
 	}
 	defer sess.Close()
 	before := peer.count()
-	_ = sess.ExecuteBatch(apiBatch(sess, h, texts))
+	execBatchRecover(sess, apiBatch(sess, h, texts))
 	var sentFrame []byte
 	for _, f := range peer.since(before) {
 		if frameOp(h.v, f) == 0x0D {
@@ -228,8 +228,8 @@ func (g *gen) soutScenario(idx int) {
 			}
 		}
 		h.tracing = g.r.Intn(4) == 0
-		if v >= 4 && g.r.Intn(4) == 0 {
-			h.payload = g.kvmap(true)
+		if g.r.Intn(4) == 0 {
+			h.payload = g.kvmap(true) // below v4: to be refused
 		}
 		ne := 1 + g.r.Intn(3)
 		var texts []string
@@ -254,7 +254,7 @@ func (g *gen) soutScenario(idx int) {
 			}
 		}
 		before := peer.count()
-		_ = sess.ExecuteBatch(apiBatch(sess, h, texts))
+		execBatchRecover(sess, apiBatch(sess, h, texts))
 		var sentFrame []byte
 		for _, f := range peer.since(before) {
 			if frameOp(v, f) == 0x0D {
@@ -274,4 +274,70 @@ func (g *gen) soutScenario(idx int) {
 		g.out.Case(soutLine(outcome, texts, h), soutVerdict(h, sentFrame != nil),
 			fmt.Sprintf("sout/v%d/pat%s/%s", v, pats, map[bool]string{true: "sent", false: "refused"}[sentFrame != nil]), true)
 	}
+}
+
+// rejectable: the inexpressible requests the builders are known to refuse (Lean: FrameWrite.Rejectable) — custom
+// payload below v4, keyspace below v5, a named value in a v3+ BATCH, more than 65535 values / batch entries.
+func rejectable(h *hreq) bool {
+	pl := len(h.payload) > 0 && h.v < 4
+	switch h.kind {
+	case "query":
+		return pl || (h.v != 1 && len(h.p.ks) > 0 && h.v < 5) || len(h.p.values) > 65535
+	case "execute":
+		return pl || (h.v > 1 && len(h.p.ks) > 0 && h.v < 5) || len(h.p.values) > 65535
+	case "prepare":
+		return pl || (len(h.ks) > 0 && h.v < 5)
+	case "batch":
+		return rejectableBatch(h)
+	}
+	return false
+}
+
+// outcomeClaim: see soutVerdict — what the real code's behaviour claims, for any request kind.
+func outcomeClaim(h *hreq, sent bool) string {
+	if !expressible(h) && !rejectable(h) {
+		return "gap"
+	}
+	if sent {
+		return "ok"
+	}
+	return "refused-ok"
+}
+
+// execBout replays a bout line: the real builder again (an error or a panic before any byte is a refusal).
+func execBout(w []string) string {
+	listed := w[1]
+	h := parseReq(&toks{w: w, i: 2})
+	if listed == "refused" {
+		frame, outcome := buildListedOrder(h, nil)
+		if outcome == "" {
+			return "outcome-differs:sent:" + vh.Hex(frame)
+		}
+		if strings.HasPrefix(outcome, "crash:") {
+			return outcome
+		}
+		return outcomeClaim(h, false)
+	}
+	want, err := vh.UnHex(listed)
+	if err != nil {
+		return "bad-op"
+	}
+	frame, outcome := buildListedOrder(h, want)
+	if outcome != "" {
+		return "outcome-differs:" + outcome
+	}
+	if !bytes.Equal(frame, want) {
+		return "outcome-differs:sent:" + vh.Hex(frame)
+	}
+	return outcomeClaim(h, true)
+}
+
+// execBatchRecover: a panic of the builder in the caller's goroutine (custom payload below v4) is a refusal.
+func execBatchRecover(sess *gocql.Session, b *gocql.Batch) (err error) {
+	defer func() {
+		if r := recover(); r != nil {
+			err = fmt.Errorf("panic: %v", r)
+		}
+	}()
+	return sess.ExecuteBatch(b)
 }
